@@ -603,8 +603,14 @@ line_address			(struct frame *		f,
 			return VBI_ERR_DU_LINE_NUMBER;
 		}
 
-		if (0 == f->last_data_unit_id) {
-			/* Nothing to do. */
+		if (f->sp == f->sliced_begin) {
+			/* First line of this frame, nothing to do.
+			   (Not 0 == f->last_data_unit_id: data units
+			   which carry no line or were skipped do not
+			   begin the frame. A new frame reported while
+			   the frame is empty would be reported again
+			   when the coroutine re-reads the packet after
+			   the reset, forever.) */
 		} else if (field != f->last_field) {
 			if (0 == f->n_data_units_extracted_from_packet)
 				return -1; /* new frame */
